@@ -20,6 +20,9 @@ pub struct FloodCase {
     pub cfg: Cfg,
     pub accept_limit: Option<usize>,
     pub block_writes: bool,
+    /// pattern-specific parameters (DATA length / padding, generated frame units, application behaviour)
+    #[serde(default)]
+    pub params: Vec<u32>,
     pub sched: Vec<u32>,
     pub chunk: Vec<u32>,
 }
@@ -39,6 +42,11 @@ const SERVER_PATTERNS: &[&str] = &[
     "priority-flood",
     "headers-then-reset-by-error",
     "unknown-frame-flood",
+    "padded-data-flood",
+    "abandon-accepted",
+    "unit-flood",
+    "unit-flood",
+    "unit-flood",
 ];
 const CLIENT_PATTERNS: &[&str] = &["push-promise-flood", "informational-flood", "ping-flood", "settings-flood", "rst-on-unknown-streams"];
 
@@ -61,10 +69,10 @@ fn fr(f: Frame) -> PStep {
 pub fn build(c: &FloodCase, n: usize) -> RawCase {
     let mut script: Vec<PStep> = vec![PStep::Barrier];
     let mut reqs: Vec<Req> = Vec::new();
-    if c.block_writes {
-        script.push(PStep::Reading(false));
-    }
+    // index in `script` where the flood proper starts (after a pattern's preparation)
+    let mut flood_at = script.len();
     let mut next = 1u32;
+    let mut pr = Tape::new(&c.params);
     match c.pattern.as_str() {
         "open-and-reset" | "open-and-reset-after-accept" => {
             for i in 0..n {
@@ -82,7 +90,7 @@ pub fn build(c: &FloodCase, n: usize) -> RawCase {
                 let id = next;
                 next += 2;
                 let mut r = default_req(id);
-                r.resp_delay = 1_000_000; // the application holds on to what it accepted
+                r.resp_delay = PARK; // the application holds on to what it accepted
                 reqs.push(r);
                 script.push(hdr(id, "POST", false));
             }
@@ -95,10 +103,12 @@ pub fn build(c: &FloodCase, n: usize) -> RawCase {
         }
         "empty-data-flood" | "tiny-data-flood" => {
             let mut r = default_req(1);
-            r.resp_delay = 1_000_000;
-            r.req_reader = Reader::Deferred(1_000_000); // reads the first chunk and sits on it
+            r.resp_delay = PARK;
+            r.req_reader = Reader::Deferred(PARK); // reads the first chunk and sits on it
             reqs.push(r);
             script.push(hdr(1, "POST", false));
+            script.push(PStep::Yield(20));
+            flood_at = script.len();
             for _ in 0..n {
                 let data = if c.pattern == "empty-data-flood" { vec![] } else { vec![7u8] };
                 script.push(fr(Frame::Data { stream: 1, end_stream: false, pad: None, data }));
@@ -127,8 +137,154 @@ pub fn build(c: &FloodCase, n: usize) -> RawCase {
         "data-on-closed-streams" => {
             script.push(hdr(1, "GET", true));
             script.push(PStep::WaitEnd(1));
+            flood_at = script.len();
             for _ in 0..n {
                 script.push(fr(Frame::Data { stream: 1, end_stream: false, pad: None, data: vec![1] }));
+            }
+        }
+        "padded-data-flood" => {
+            let mut r = default_req(1);
+            r.resp_delay = PARK;
+            r.req_reader = Reader::Deferred(PARK);
+            reqs.push(r);
+            script.push(hdr(1, "POST", false));
+            script.push(PStep::Yield(20));
+            flood_at = script.len();
+            let len = *pr.pick(&[0usize, 1, 1, 2, 100, 255, 256, 300]);
+            let pad = *pr.pick(&[0u8, 1, 100, 254, 255, 255]);
+            for _ in 0..n {
+                script.push(PStep::Data { stream: 1, len, end_stream: false, pad: Some(pad), force: false });
+            }
+        }
+        "abandon-accepted" => {
+            // the application drops every accepted stream at once; the peer opens the next one without waiting
+            let every = *pr.pick(&[0usize, 1, 4, 16]);
+            for i in 0..n {
+                let id = next;
+                next += 2;
+                let mut r = default_req(id);
+                r.abandon = true;
+                reqs.push(r);
+                script.push(hdr(id, "POST", false));
+                if every > 0 && i % every == 0 {
+                    script.push(PStep::Yield(2));
+                }
+            }
+        }
+        "unit-flood" => {
+            // a generated unit of 1..4 frame templates, repeated; stream ids advance with the iteration
+            let app = pr.below(4); // 0 respond, 1 hold, 2 abandon, 3 respond without reading the body
+            let has_long = pr.bool();
+            if has_long {
+                let mut r = default_req(1);
+                r.resp_delay = PARK;
+                r.req_reader = if pr.bool() { Reader::Deferred(PARK) } else { Reader::Eager };
+                reqs.push(r);
+                script.push(hdr(1, "POST", false));
+                script.push(PStep::Yield(20));
+                next = 3;
+            }
+            flood_at = script.len();
+            let nt = 1 + pr.below(4);
+            let templ: Vec<(usize, u32, u32, u32)> = (0..nt).map(|_| (pr.weighted(&[5, 4, 4, 2, 2, 1, 1, 1, 2, 2, 1]), pr.u32(), pr.u32(), pr.u32())).collect();
+            let every = *pr.pick(&[0usize, 1, 4, 16]);
+            let mut prev: Vec<u32> = Vec::new();
+            for i in 0..n {
+                let mut cur: Option<u32> = None;
+                for (kind, a, b, d) in &templ {
+                    // target of stream-addressed frames: the stream opened in this iteration, else an earlier one, else the long-lived one
+                    let tgt = |cur: Option<u32>, prev: &Vec<u32>, sel: u32| -> u32 {
+                        match sel % 4 {
+                            0 | 1 => cur.or(prev.last().copied()).unwrap_or(1),
+                            2 => prev.get(prev.len().wrapping_sub(1 + (sel as usize / 4) % 8)).copied().or(cur).unwrap_or(1),
+                            _ => {
+                                if has_long {
+                                    1
+                                } else {
+                                    cur.or(prev.last().copied()).unwrap_or(1)
+                                }
+                            }
+                        }
+                    };
+                    match kind {
+                        0 => {
+                            let id = next;
+                            next += 2;
+                            let mut r = default_req(id);
+                            match app {
+                                1 => r.resp_delay = PARK,
+                                2 => r.abandon = true,
+                                3 => r.req_reader = Reader::Deferred(PARK),
+                                _ => {}
+                            }
+                            reqs.push(r);
+                            script.push(hdr(id, if a % 2 == 0 { "POST" } else { "GET" }, a % 4 >= 2));
+                            cur = Some(id);
+                        }
+                        1 => script.push(fr(Frame::Rst { stream: tgt(cur, &prev, *a), code: [0u32, 1, 5, 7, 8][(*b % 5) as usize] })),
+                        2 => script.push(PStep::Data {
+                            stream: tgt(cur, &prev, *a),
+                            len: [0usize, 0, 1, 1, 10, 300][(*b % 6) as usize],
+                            end_stream: *d % 5 == 0,
+                            pad: [None, None, Some(0u8), Some(255), Some(7)][((*b / 6) % 5) as usize],
+                            force: *d % 7 == 0,
+                        }),
+                        3 => script.push(fr(Frame::WinUp { stream: if a % 2 == 0 { 0 } else { tgt(cur, &prev, *b) }, inc: [1u32, 1000, 0x7fff_ffff][(*d % 3) as usize], inc_r: false })),
+                        4 => script.push(fr(Frame::Priority { stream: if a % 2 == 0 { tgt(cur, &prev, *b) } else { next + 2 * (b % 50) }, prio: wire::Prio { exclusive: d % 2 == 0, dep: 0, weight: (*d % 256) as u8 } })),
+                        5 => {
+                            let mut p8 = [0x33u8; 8];
+                            p8[4..8].copy_from_slice(&(i as u32).to_be_bytes());
+                            script.push(fr(Frame::Ping { ack: a % 4 == 0, data: p8 }))
+                        }
+                        6 => script.push(fr(Frame::Settings { ack: false, params: [vec![], vec![(4, 65535)], vec![(1, 0)], vec![(1, 4096)], vec![(5, 16384)], vec![(3, 100)]][(*a % 6) as usize].clone() })),
+                        7 => script.push(PStep::Raw(RawFrame::new(0x20 + (*a % 200) as u8, (*b % 256) as u8, if d % 2 == 0 { 0 } else { tgt(cur, &prev, *d) }, vec![0; (*b % 64) as usize]).encode())),
+                        8 => {
+                            // a request the library has to reset itself
+                            let id = next;
+                            next += 2;
+                            let bad: Vec<(String, String)> = match a % 3 {
+                                0 => vec![(":method".into(), "GET".into()), (":scheme".into(), "https".into()), ("te".into(), "gzip".into())],
+                                1 => vec![(":method".into(), "GET".into()), (":scheme".into(), "https".into()), (":path".into(), "/".into()), ("connection".into(), "close".into())],
+                                _ => vec![(":method".into(), "GET".into()), (":scheme".into(), "https".into()), (":path".into(), "/".into()), ("content-length".into(), "5".into())],
+                            };
+                            script.push(PStep::Headers { stream: id, fields: bad, end_stream: true, splits: vec![], pad: None, prio: None, enc: 0 });
+                            cur = Some(id);
+                        }
+                        9 => {
+                            // trailers (or a second head) on the target
+                            script.push(PStep::Headers { stream: tgt(cur, &prev, *a), fields: vec![("x-t".into(), "1".into())], end_stream: b % 4 != 0, splits: vec![], pad: None, prio: None, enc: 0 });
+                        }
+                        _ => {
+                            // HEADERS in several fragments
+                            let id = next;
+                            next += 2;
+                            let mut r = default_req(id);
+                            if app == 2 {
+                                r.abandon = true;
+                            }
+                            reqs.push(r);
+                            script.push(PStep::Headers {
+                                stream: id,
+                                fields: vec![(":method".into(), "GET".into()), (":scheme".into(), "https".into()), (":authority".into(), "example.com".into()), (":path".into(), format!("/s/{}", id)), ("x-id".into(), id.to_string()), ("x-long".into(), "y".repeat(40 + (*b % 200) as usize))],
+                                end_stream: true,
+                                splits: vec![1 + (*a % 20) as usize, 22 + (*d % 20) as usize],
+                                pad: None,
+                                prio: None,
+                                enc: 0,
+                            });
+                            cur = Some(id);
+                        }
+                    }
+                }
+                if let Some(id) = cur {
+                    prev.push(id);
+                    if prev.len() > 16 {
+                        prev.remove(0);
+                    }
+                }
+                if every > 0 && i % every == 0 {
+                    script.push(PStep::Yield(2));
+                }
             }
         }
         "window-update-flood" => {
@@ -178,6 +334,7 @@ pub fn build(c: &FloodCase, n: usize) -> RawCase {
         _ => {}
     }
     if c.block_writes {
+        script.insert(flood_at, PStep::Reading(false));
         script.push(PStep::Yield(40));
         script.push(PStep::Reading(true));
     }
@@ -187,7 +344,7 @@ pub fn build(c: &FloodCase, n: usize) -> RawCase {
     if c.client {
         // the application sends one request and does not look at the response (it "accepts slowly or not at all")
         let mut r = default_req(1);
-        r.resp_reader = Reader::Deferred(1_000_000);
+        r.resp_reader = Reader::Deferred(PARK);
         reqs.push(r);
     }
     let base = PairCase {
@@ -284,7 +441,7 @@ impl Engine for FloodEngine {
         "flood-doubling"
     }
     fn tape_lens(&self) -> Vec<usize> {
-        vec![60, 120]
+        vec![120, 120]
     }
     fn gen(&self, tapes: &[Vec<u32>]) -> FloodCase {
         let mut t = Tape::new(&tapes[0]);
@@ -304,7 +461,12 @@ impl Engine for FloodEngine {
         }
         cfg.reset_dur_zero = t.chance(1, 4);
         let heavy = matches!(pattern.as_str(), "data-on-closed-streams" | "headers-then-reset-by-error");
-        let block_writes = matches!(pattern.as_str(), "ping-flood" | "settings-flood" | "open-and-reset" | "data-on-closed-streams" | "headers-then-reset-by-error") && t.bool();
+        let block_writes = matches!(pattern.as_str(), "ping-flood" | "settings-flood" | "open-and-reset" | "data-on-closed-streams" | "headers-then-reset-by-error" | "abandon-accepted" | "streams-over-limit" | "unit-flood") && t.bool();
+        if matches!(pattern.as_str(), "abandon-accepted" | "unit-flood") && cfg.max_concurrent.is_none() {
+            // (streams the peer may legitimately keep open are bounded only by a configured limit)
+            cfg.max_concurrent = Some(*t.pick(&[1u32, 2, 5, 20, 100]));
+        }
+        let params: Vec<u32> = (0..40).map(|_| t.u32()).collect();
         // n is beyond every quota of the pattern: 1024 library resets, and (writes blocked) a write buffer's worth of 9-byte replies
         let n = if block_writes {
             2200 + t.below(200)
@@ -314,17 +476,17 @@ impl Engine for FloodEngine {
             // beyond four times the advertised limit (h2's abuse threshold) at ~100 B per field
             800 + t.below(100)
         } else {
-            *t.pick(&[150usize, 300, 600]) + t.below(20)
+            *t.pick(&[600usize, 800, 1000]) + t.below(50)
         };
         let mut t2 = Tape::new(&tapes[1]);
         let ns = t2.below(60);
         let sched = (0..ns).map(|_| t2.u32()).collect();
         let nc = t2.below(60);
         let chunk = (0..nc).map(|_| t2.u32()).collect();
-        FloodCase { pattern, n, client, cfg, accept_limit: if client { None } else { *t.pick(&[None, Some(0), Some(3)]) }, block_writes, sched, chunk }
+        FloodCase { pattern, n, client, cfg, accept_limit: if client { None } else { *t.pick(&[None, None, Some(0), Some(3)]) }, block_writes, params, sched, chunk }
     }
     fn rule(&self) -> String {
-        "a hostile pattern (open-and-reset before/after accept, streams over the limit, CONTINUATION flood, empty/1-byte DATA flood, PING/SETTINGS floods with the endpoint's writes blocked, growing header list, DATA on closed streams, malformed requests reset by the library, WINDOW_UPDATE/PRIORITY/unknown-frame floods; against a client: PUSH_PROMISE, 1xx and stray RST_STREAM floods) with generated limits, accept behaviour (normal / after 3 / never) and chunking is run with n, 2n and 4n repetitions (n ≥ 150); plateau oracle: running maxima and final values of stream records, buffered receive events, queued send frames and bytes consumed while writes are blocked must not grow over both doublings unless the connection was terminated with an error; non-trivial = the pattern was delivered completely or the endpoint terminated the connection".into()
+        "a hostile pattern (open-and-reset before/after accept, streams over the limit, CONTINUATION flood, empty/1-byte DATA flood, PING/SETTINGS floods with the endpoint's writes blocked, growing header list, DATA on closed streams, malformed requests reset by the library, WINDOW_UPDATE/PRIORITY/unknown-frame floods; against a client: PUSH_PROMISE, 1xx and stray RST_STREAM floods) with generated limits, accept behaviour (normal / after 3 / never) and chunking is run with n, 2n and 4n repetitions (n ≥ 600); plateau oracle: running maxima and final values of stream records, buffered receive events, queued send frames and bytes consumed while writes are blocked must not grow over both doublings unless the connection was terminated with an error; non-trivial = the pattern was delivered completely or the endpoint terminated the connection".into()
     }
     fn shrink_iters(&self) -> u32 {
         60
@@ -362,7 +524,7 @@ impl Engine for FloodEngine {
         let slack = 2usize;
         let mut chk = |what: &str, a: usize, b: usize, d: usize| {
             // growth over both doublings: a quota first crossed between n and 2n shows as growth followed by a plateau
-            let slack = if what.starts_with("heap") { 4096 } else { slack };
+            let slack = if what.starts_with("heap") { 8192 } else { slack };
             let grow = |a: usize, b: usize| b > a + slack && b as f64 > a as f64 * 1.25;
             if grow(a, b) && grow(b, d) {
                 out.fail(
@@ -381,7 +543,9 @@ impl Engine for FloodEngine {
         chk("queued-send-frames-at-end", p1.end_send_frames, p2.end_send_frames, p4.end_send_frames);
         chk("heap-bytes-of-connection-task-peak", p1.heap_peak, p2.heap_peak, p4.heap_peak);
         chk("heap-bytes-of-connection-task-at-end", p1.heap_end, p2.heap_end, p4.heap_end);
-        if c.block_writes {
+        // every repetition of these patterns obliges the endpoint to a reply: it cannot go on reading without bound
+        // while it cannot write
+        if c.block_writes && matches!(c.pattern.as_str(), "ping-flood" | "settings-flood" | "headers-then-reset-by-error" | "streams-over-limit") {
             chk("bytes-consumed-while-writes-blocked", p1.consumed_blocked, p2.consumed_blocked, p4.consumed_blocked);
         }
         out
